@@ -256,12 +256,70 @@ macro_rules! add_leaf_for {
     }};
 }
 
+/// Generic instantiations: the MockFn type is opaque (`impl MockFn`), so only the simple forms
+/// (each_call / next_call with one returns(v) segment) are supported, written out directly.
+fn add_g<T: 'static>(dc: &mut DynClause, leaf: &Leaf, li: usize)
+where
+    Unimock: UG<T>,
+{
+    let pat = &leaf.pats[0];
+    let s = &pat.chain[0];
+    assert!(pat.chain.len() == 1 && s.k == "val", "harness: unsupported chain for a generic method");
+    let mask = mask_of(&pat.pred);
+    let lab = leak(label(li, 1));
+    let line = (li * 10 + 1) as u32;
+    let id = val_id(li, 1, 1);
+    match leaf.form.as_str() {
+        "each" => {
+            let q = UGMock::g
+                .with_types::<T>()
+                .each_call(&move |m| {
+                    m.func(move |a: &u8, _| (mask >> *a) & 1 == 1);
+                    m.pat_debug(lab, "model", line);
+                })
+                .returns(Val::new(id));
+            match s.q.as_str() {
+                "none" => dc.push(q),
+                "once" => dc.push(q.once()),
+                "n" => dc.push(q.n_times(s.n)),
+                "atleast" => dc.push(q.at_least_times(s.n)),
+                o => panic!("harness: unknown quantifier {o}"),
+            }
+        }
+        "next" => {
+            let q = UGMock::g
+                .with_types::<T>()
+                .next_call(&move |m| {
+                    m.func(move |a: &u8, _| (mask >> *a) & 1 == 1);
+                    m.pat_debug(lab, "model", line);
+                })
+                .returns(Val::new(id));
+            match s.q.as_str() {
+                "none" => dc.push(q),
+                "once" => dc.push(q.once()),
+                "n" => dc.push(q.n_times(s.n)),
+                o => panic!("harness: unsupported quantifier {o}"),
+            }
+        }
+        f => panic!("harness: unsupported form {f} for a generic method"),
+    }
+}
+
 /// Build the clause list of a configuration through the real builder API, in leaf order.
 pub fn build_clauses(leaves: &[Leaf]) -> DynClause {
+    let order: Vec<usize> = (1..=leaves.len()).collect();
+    build_clauses_perm(leaves, &order)
+}
+
+/// Same, but the clauses are listed in the order `perm` (1-based leaf indexes); ids and labels
+/// keep referring to the original leaf index (C18: admissible reorderings change nothing).
+pub fn build_clauses_perm(leaves: &[Leaf], perm: &[usize]) -> DynClause {
     let mut dc = DynClause::new();
-    for (i, leaf) in leaves.iter().enumerate() {
-        let li = i + 1;
+    for &li in perm {
+        let leaf = &leaves[li - 1];
         match leaf.m.as_str() {
+            "g8" => add_g::<u8>(&mut dc, leaf, li),
+            "g16" => add_g::<u16>(&mut dc, leaf, li),
             "r0" => add_leaf_for!(&mut dc, leaf, li, UMock::r0, r0_any, r0_ord),
             "r1" => add_leaf_for!(&mut dc, leaf, li, UMock::r1, r1_any, r1_ord),
             "r2" => add_leaf_for!(&mut dc, leaf, li, UMock::r2, r2_any, r2_ord),
